@@ -78,7 +78,8 @@ impl BytesSerializable for GetConsumerOffset {
     }
 
     fn from_bytes(bytes: Bytes) -> Result<GetConsumerOffset, IggyError> {
-        if bytes.len() < 15 {
+        // Consumer kind + three identifiers of at least 3 bytes + partition ID.
+        if bytes.len() < 14 {
             return Err(IggyError::InvalidCommand);
         }
 
